@@ -299,6 +299,100 @@ Definition split_divide_with (core : nat -> bool -> list dim -> Z -> dres)
 Definition split_divide_pinned := split_divide_with divide_pinned.
 Definition split_divide := split_divide_with divide.
 
+(* ------------------------------------------------------------------ *)
+(* _all_children is cached: SimpleCache(maxsize=1) keyed by
+   tuple(self.children).  Children are identified by an id (object
+   identity); an entry of the cached list is a child, a padding window or an
+   alignment (flex) window.  `self.align` / `self.padding` are not part of
+   the key: they are taken as fixed for the life of the split object. *)
+
+Inductive entry := EChild (id : Z) | EPad | EFlex.
+
+Definition entries (align : Z) (ids : list Z) : list entry :=
+  removelast
+    ((if (align =? 1) || (align =? 2) then [EFlex] else [])
+     ++ flat_map (fun c => [EChild c; EPad]) ids)
+  ++ (if (align =? 1) || (align =? 0) then [EFlex] else []).
+
+Definition lookup (pool : list dim) (id : Z) : dim := nth (Z.to_nat id) pool flex.
+
+Definition entry_dim (pool : list dim) (pad : dim) (e : entry) : dim :=
+  match e with EChild id => lookup pool id | EPad => pad | EFlex => flex end.
+
+Definition entry_code (e : entry) : Z :=
+  match e with EChild id => id | EPad => -1 | EFlex => -2 end.
+
+Fixpoint zlist_eqb (a b : list Z) : bool :=
+  match a, b with
+  | [], [] => true
+  | x :: a', y :: b' => (x =? y) && zlist_eqb a' b'
+  | _, _ => false
+  end.
+
+(* the one cache slot: key (the children tuple) and value *)
+Definition cache := option (list Z * list entry).
+
+(* SimpleCache.get(tuple(self.children), get): on a miss the new pair
+   replaces the old one (maxsize = 1) *)
+Definition cache_get (align : Z) (c : cache) (ids : list Z) : list entry * cache :=
+  match c with
+  | Some (k, v) =>
+      if zlist_eqb k ids then (v, c)
+      else let v' := entries align ids in (v', Some (ids, v'))
+  | None => let v' := entries align ids in (v', Some (ids, v'))
+  end.
+
+(* the division on an explicit _all_children list *)
+Definition split_on (fuel : nat) (orient : Z) (done : bool) (no_children : bool)
+           (ds : list dim) (avail : Z) : dres :=
+  if orient =? 0 then
+    if no_children then Sizes [] else divide fuel done ds avail
+  else divide fuel false ds avail.
+
+(* ------------------------------------------------------------------ *)
+(* The dimension a split reports to its parent (width = None, height = None).
+   A child is a pair (width requirement, height requirement).
+   axis 0 = preferred_width, 1 = preferred_height(width, ...) *)
+
+Definition split_report (fuel : nat) (orient axis : Z) (align : Z) (pad : dim)
+           (cs : list (dim * dim)) (width : Z) : ctor_res + Z :=
+  if orient =? 0 then
+    if axis =? 0 then
+      match cs with
+      | [] => inl (dimension None None None None)
+      | _ => inl (max_layout_dimensions (map fst cs))
+      end
+    else inl (sum_layout_dimensions (all_children align pad (map snd cs)))
+  else
+    if axis =? 0 then inl (sum_layout_dimensions (all_children align pad (map fst cs)))
+    else
+      match divide fuel false (all_children align pad (map fst cs)) width with
+      | Sizes _ => inl (max_layout_dimensions (all_children align flex (map snd cs)))
+      | TooSmall => inl (dimension None None None None)
+      | OutOfFuel => inr 3
+      | _ => inr 4
+      end.
+
+(* Window._merge_dimensions(dimension, get_preferred, dont_extend); the
+   Window's own dimension is given by its raw constructor arguments (the
+   *_specified flags), cp = what the UIControl reports (None / an int) *)
+Definition merge_dimensions (mn mx w p : option Z) (cp : option Z) (de : bool) : ctor_res :=
+  match dimension mn mx w p with
+  | COk d =>
+      let pref0 := match p with Some _ => Some (dpref d) | None => cp end in
+      let clamp v :=
+        let v1 := match mx with Some _ => Z.min v (dmax d) | None => v end in
+        match mn with Some _ => Z.max v1 (dmin d) | None => v1 end in
+      let pref1 := match pref0 with Some v => Some (clamp v) | None => None end in
+      let max_ := match de, pref1 with
+                  | true, Some v => Some (Z.min (dmax d) v)
+                  | _, _ => match mx with Some _ => Some (dmax d) | None => None end
+                  end in
+      let min_ := match mn with Some _ => Some (dmin d) | None => None end in
+      dimension min_ max_ (Some (dweight d)) pref1
+  | e => e
+  end.
+
 (* regions drawn: (kind, offset, extent); kind 0 = k-th entry of
    _all_children (in order), 1 = the remaining-space window, 2 = the
    window_too_small container *)
@@ -385,6 +479,9 @@ Definition nat_of_Z (z : Z) : nat := Z.to_nat z.
      (2 children)                                          max_layout_dimensions
      (3 weights n)                                         first n of take_using_weights(range, weights)
      (4 ...as 0...)                                        split as it was before the zero-weight fix (pinned)
+     (5 orient done align pad pool avail start fuel steps) renders of one split whose children list (ids into pool) is edited in between
+     (6 orient axis align pad widths heights width fuel)   preferred_width / preferred_height reported by a split
+     (7 rawdim cp dont_extend)                             Window._merge_dimensions
    children = list of raw dimensions; a raw dimension whose constructor
    raises makes the whole case answer (4) / (5) (first in list order; the
    padding is constructed before the children). *)
@@ -400,6 +497,22 @@ Definition run_split (core : nat -> bool -> list dim -> Z -> dres)
       | inr e => sx_ctor e
       end
   | _, _, _ => bad_case
+  end.
+
+(* several renders of one split object whose children list is edited in
+   between: each step gives the current children (ids into the pool) *)
+Fixpoint render_steps (fuel : nat) (orient : Z) (done : bool) (align : Z) (pad : dim)
+         (pool : list dim) (avail start : Z) (c : cache) (steps : list (list Z)) : list sx :=
+  match steps with
+  | [] => []
+  | ids :: rest =>
+      let '(es, c') := cache_get align c ids in
+      let ds := map (entry_dim pool pad) es in
+      let no_children := match ids with [] => true | _ => false end in
+      let res := split_on fuel orient done no_children ds avail in
+      let regs := draw orient (map (lookup pool) ids) (length es) res start avail in
+      L [sx_dres res regs; L (map (fun e => A (entry_code e)) es)]
+      :: render_steps fuel orient done align pad pool avail start c' rest
   end.
 
 Definition run_C12 (c : sx) : sx :=
@@ -423,6 +536,38 @@ Definition run_C12 (c : sx) : sx :=
                     | inr e => sx_ctor e
                     end
       | None => bad_case
+      end
+  | L [A 5; A orient; dn; A align; pad; L pool; A avail; A start; A fuel; L steps] =>
+      match as_bool dn, as_rawdim pad, map_opt as_rawdim pool, map_opt as_str steps with
+      | Some done, Some rp, Some rpool, Some sts =>
+          match collect_dims (rp :: rpool) with
+          | inl (p :: pl) => L (render_steps (nat_of_Z fuel) orient done align p pl avail start None sts)
+          | inl [] => bad_case
+          | inr e => sx_ctor e
+          end
+      | _, _, _, _ => bad_case
+      end
+  | L [A 6; A orient; A axis; A align; pad; L ws; L hs; A width; A fuel] =>
+      match as_rawdim pad, map_opt as_rawdim ws, map_opt as_rawdim hs with
+      | Some rp, Some rws, Some rhs =>
+          match collect_dims (rp :: rws), collect_dims rhs with
+          | inl (p :: dw), inl dh =>
+              if Nat.eqb (length dw) (length dh) then
+                match split_report (nat_of_Z fuel) orient axis align p (combine dw dh) width with
+                | inl r => sx_ctor r
+                | inr code => L [A code]
+                end
+              else bad_case
+          | inr e, _ => sx_ctor e
+          | _, inr e => sx_ctor e
+          | _, _ => bad_case
+          end
+      | _, _, _ => bad_case
+      end
+  | L [A 7; L [a; b; c; d]; cp; de] =>
+      match as_opt as_Z a, as_opt as_Z b, as_opt as_Z c, as_opt as_Z d, as_opt as_Z cp, as_bool de with
+      | Some mn, Some mx, Some w, Some p, Some cpv, Some dev => sx_ctor (merge_dimensions mn mx w p cpv dev)
+      | _, _, _, _, _, _ => bad_case
       end
   | L [A 3; ws; A n] =>
       match as_str ws with
